@@ -68,8 +68,14 @@ def K(name, pattern):
     return {"name": name, "kind": "cb", "pattern": pattern}
 
 
+def KC(name, pattern):
+    """Callback subscriber whose owner closes the subscription from its own thread right after subscribing, while the
+    delivery thread is scanning / popping: whatever the delivery thread already took must still be delivered."""
+    return {"name": name, "kind": "cbclose", "pattern": pattern}
+
+
 def S(name, threads, pre=(), preload=()):
-    n = len(threads) + sum(1 for t in threads if t["kind"] == "cb")
+    n = len(threads) + sum(1 for t in threads if t["kind"] in ("cb", "cbclose"))
     return {"name": name, "pre": list(pre), "preload": list(preload), "threads": threads, "nthreads": n}
 
 
@@ -93,7 +99,9 @@ SCENARIOS = [
     S("1pub_1poller_close_inside_fresh", [P("P0", "n.x", "n.x", "n.x"), L("L0", "n.*", 3, "close")]),
     S("2poller_preloaded_backlog", [L("L0", "a.x", 2, "break"), L("L1", "a.*", 2, "close")],
       preload=["a.x", "a.x", "a.x", "a.x"]),
+    S("1callback_sub_closed_by_owner_backlog", [KC("K0", "a.x")], preload=["a.x", "a.x"]),
     # ---- three application threads
+    S("1pub_1callback_sub_closed_by_owner", [P("P0", "a.x", "a.x"), KC("K0", "a.*")], preload=["a.x"]),
     S("1pub_1poller_1sub_backlog", [P("P0", "a.x", "a.x"), L("L0", "a.x", 2, "break"), C("C0", "a.?", 1)],
       preload=["a.x", "a.x", "a.x"]),
     S("2pub_fresh_shared_1sub_wild", [P("P0", "n.x"), P("P1", "n.x"), C("C0", "n.*")]),
@@ -291,6 +299,15 @@ class Harness:
                             sub.close()
             return body
 
+        def cbclose_body(name, pattern):
+            log = logs[name] = []
+            patterns[name] = pattern
+
+            def body():
+                sub = tr.subscribe(pattern, callback=lambda m: log.append(m.data))
+                sub.close()
+            return body
+
         def cb_body(name, pattern):
             log = logs[name] = []
             patterns[name] = pattern
@@ -306,6 +323,8 @@ class Harness:
                 s.spawn(th["name"], pub_body(th["name"], th["channels"]))
             elif th["kind"] == "sub":
                 s.spawn(th["name"], sub_body(th["name"], th["pattern"], th["polls"]))
+            elif th["kind"] == "cbclose":
+                s.spawn(th["name"], cbclose_body(th["name"], th["pattern"]))
             elif th["kind"] == "poll":
                 s.spawn(th["name"], poll_body(th["name"], th["pattern"], th["polls"], th["how"]))
             else:
